@@ -209,6 +209,77 @@ void gen_table(Plan& p, Rng& r, bool hostile)
         p.steps.push_back(mk(ops[r.weighted(w)], r, 4, draw_size(r)));
 }
 
+void gen_foreign(Plan& p, Rng& r)
+{
+    // C04 / C02 converse: 2.x on-disk library shared with the foreign writer
+    p.cfg.schema = 11 + (int)r.below(7);
+    p.cfg.on_disk = true;
+    p.cfg.table_api = true;
+    p.cfg.checks = CK_FOREIGN;
+    p.cfg.gf.rich = r.chance(2, 3);
+    int n0 = 1 + (int)r.below(2);
+    for (int i = 0; i < n0; ++i)
+        p.steps.push_back(mk("create_track", r, 0, 1 + (int)r.below(2)));
+    p.steps.push_back(mk("f_write", r, 1, draw_size(r)));
+    static const char* ops[] = {"f_set", "f_rmw_t", "f_rmw_col", "f_write", "f_mutate", "reload", "create_track", "clock"};
+    std::vector<unsigned> w = {44, 9, 12, 10, 8, 4, 3, 2};
+    int n = 5 + (int)r.below(12);
+    for (int i = 0; i < n; ++i)
+    {
+        size_t k = r.weighted(w);
+        Step s = mk(ops[k], r, 4, draw_size(r));
+        if (s.op == "f_set")
+        {
+            // bias to the setters that own a piece of performance data
+            static const int perf[] = {F_AVERAGE_LOUDNESS, F_BEATGRID, F_HOT_CUES, F_KEY, F_LOOPS, F_MAIN_CUE, F_SAMPLE_COUNT,
+                                       F_SAMPLE_RATE, F_WAVEFORM, F_HOT_CUE_AT, F_LOOP_AT, F_HOT_CUE_AT, F_LOOP_AT, F_MAIN_CUE};
+            if (r.chance(3, 4))
+                s.a[1] = perf[r.below(sizeof perf / sizeof *perf)];
+            else
+                s.a[1] = (int64_t)r.below(F_COUNT);
+        }
+        p.steps.push_back(s);
+    }
+}
+
+void gen_corrupt(Plan& p, Rng& r)
+{
+    // C05: damage to stored bytes at arbitrary instants, then every reader
+    p.cfg.on_disk = true;
+    p.cfg.checks = CK_FOREIGN;
+    p.cfg.table_api = p.cfg.schema >= 11;
+    p.cfg.gf.rich = r.chance(3, 4);
+    p.cfg.gf.long_labels = false;
+    p.cfg.gf.many_slots = false;
+    p.cfg.gf.odd_grids = false;
+    p.cfg.gf.no_path = false;
+    int n0 = 1 + (int)r.below(2);
+    for (int i = 0; i < n0; ++i)
+        p.steps.push_back(mk("create_track", r, 0, 1 + (int)r.below(3)));
+    if (p.cfg.schema >= 11 && r.chance(1, 2))
+        p.steps.push_back(mk("f_write", r, 1, draw_size(r)));
+    int n = 10 + (int)r.below(30);
+    for (int i = 0; i < n; ++i)
+    {
+        unsigned k = r.below(40);
+        if (k == 0)
+            p.steps.push_back(mk("f_pageflip", r, 1, 1));
+        else if (k == 1)
+            p.steps.push_back(mk("reload", r, 1, 1));
+        else
+        {
+            Step s = mk("f_corrupt", r, 4, 1);
+            s.a[0] &= 1023;
+            if (r.chance(1, 12))
+                s.a[0] |= 1024;  // found after a restart
+            if (r.chance(1, 20))
+                s.a[0] |= 2048;  // left in place
+            s.a[3] = (int64_t)r.below(1u << 20);
+            p.steps.push_back(s);
+        }
+    }
+}
+
 void gen_hostile(Plan& p, Rng& r)
 {
     // C15: ordinary operations mixed with hostile ones; values come from the
@@ -342,6 +413,10 @@ Plan generate_plan(const std::string& profile_in, uint64_t seed, uint64_t index)
         gen_table(p, r, false);
     else if (profile == "tableh")
         gen_table(p, r, true);
+    else if (profile == "foreign")
+        gen_foreign(p, r);
+    else if (profile == "corrupt")
+        gen_corrupt(p, r);
     else if (profile == "hostile")
         gen_hostile(p, r);
     else
